@@ -96,6 +96,12 @@ where
     }
 
     fn map_and_write_current_buffer(&mut self) -> io::Result<()> {
+        // An empty buffer means there is no (remaining) data to map. Mapping it anyway would emit
+        // output (i.e. a prefix) for data that was never written.
+        if self.buffer.is_empty() {
+            return Ok(());
+        }
+
         match self.inner {
             Some(ref mut inner) => inner.write_all(&(self.mapping_fn)(mem::take(&mut self.buffer))),
             None => Ok(()),
